@@ -67,8 +67,13 @@ def c18_medium(E):
     pre = zbool(precond)
     if not isinstance(pre, bool):
         pre = bool(__import__("vlib.vsym", fromlist=["SymBool"]).SymBool(pre))
+    # the argument as a dict or as a pandas Series (what minimal_medium returns: `model.medium = minimal_medium(model)`)
+    form = E.pick("medium_as", ["dict", "Series"])
+    import pandas as pd
+    arg = d if form == "dict" else pd.Series(d, dtype=object if E.symbolic else float)
+    E.note(medium_as=form)
     try:
-        m.medium = d
+        m.medium = arg
         raised = None
     except ValueError as e:
         raised = e
@@ -191,6 +196,9 @@ def c18_minimal_medium_mip(E, sym=("EX_A_e", "EX_B_e")):
     m = _model(E, sym=sym, delta=0.01)
     g = E.real("min_objective_value", 0.01, 12)
     oe = E.pick("open_exchanges", [False, True, 5])
+    import cobra
+    # configured default bounds wider or narrower than the bounds of the model
+    cobra.Configuration().bounds = E.pick("config_bounds", [(-1000.0, 1000.0), (-2.0, 2.0)])
     E.note(open_exchanges=str(oe))
     lp = fba_lp(m)
     if oe is not False:
